@@ -134,6 +134,24 @@ static void aead128a(void) {
     }
 }
 
+/* quick tier of C01: associated data of 2^32+5 zero bytes (no memory is touched for writing) through the one-shot encryption of each
+   variant: the result must differ from the one for the first 5 bytes alone (= the length taken modulo 2^32) and from the one with the
+   last byte changed */
+#define AD_TEST(NAME, LABEL, ENC) \
+static void NAME(void) { \
+    size_t adlen = BIG + 5, l; unsigned char *ad = map(adlen), key[20], nonce[16], c0[24], c2[24], c3[24]; \
+    memset(key, 0x55, 20); memset(nonce, 0x66, 16); \
+    ENC(c0, &l, (const unsigned char *)"payload!", 8, ad, adlen, nonce, key); \
+    ad[adlen - 1] ^= 1; ENC(c2, &l, (const unsigned char *)"payload!", 8, ad, adlen, nonce, key); ad[adlen - 1] ^= 1; \
+    ENC(c3, &l, (const unsigned char *)"payload!", 8, ad, 5, nonce, key); \
+    verdict(LABEL "-mod32", memcmp(c0, c3, 24) != 0, "AD of 2^32+5 zero bytes gives a different ciphertext+tag than its first 5 bytes"); \
+    verdict(LABEL "-last", memcmp(c0, c2, 24) != 0, "the last of 2^32+5 AD bytes influences the tag"); \
+    munmap(ad, adlen); \
+}
+AD_TEST(ad128, "aead128-ad", ascon128_aead_encrypt)
+AD_TEST(ad128a, "aead128a-ad", ascon128a_aead_encrypt)
+AD_TEST(ad80pq, "aead80pq-ad", ascon80pq_aead_encrypt)
+
 /* PRF and HMAC: one call over 2^32+5 bytes against the same bytes in two calls; the last byte must matter */
 static void prf_hmac(void) {
     size_t m = BIG + 5; unsigned char *in = map(m), key[16], o1[32], o2[32], o3[32];
@@ -161,7 +179,10 @@ int main(int argc, char **argv) {
     else if (!strcmp(t, "siv128")) siv128();
     else if (!strcmp(t, "isap-ad")) isap_ad();
     else if (!strcmp(t, "aead128a")) aead128a();
+    else if (!strcmp(t, "ad128")) ad128();
+    else if (!strcmp(t, "ad128a")) ad128a();
+    else if (!strcmp(t, "ad80pq")) ad80pq();
     else if (!strcmp(t, "prf-hmac")) prf_hmac();
-    else { fprintf(stderr, "usage: x_huge xof|xofa|siv128|isap-ad|aead128a|prf-hmac\n"); return 2; }
+    else { fprintf(stderr, "usage: x_huge xof|xofa|siv128|isap-ad|aead128a|ad128|ad128a|ad80pq|prf-hmac\n"); return 2; }
     return fails ? 1 : 0;
 }
